@@ -943,6 +943,14 @@ func TestCheck(t *testing.T) {
 func TestReplay(t *testing.T) {
 	rec := evid.Start("C15", rule)
 	setup(rec)
+	// a declared-risky case is declared again, so that a worker death during the replay is attributed to it
+	if b, err := os.ReadFile(os.Getenv("VERIF_REPLAY")); err == nil {
+		var rf evid.ReplayFile
+		var c FileCase
+		if json.Unmarshal(b, &rf) == nil && json.Unmarshal(rf.Case, &c) == nil && c.Risky {
+			defer declare(rec, c)()
+		}
+	}
 	rec.Replay(t)
 }
 
